@@ -233,10 +233,6 @@ Section Algebra.
       rewrite E in E1. apply (F_1_neq_0 Fth). rewrite <- E1. ring.
     Qed.
 
-    (* contract of np.sqrt on the values that pass the assertion *)
-    Definition sqrt_contract : Prop :=
-      forall v, knormable ops v = true -> ksqrt ops v * ksqrt ops v = v /\ v <> nzero.
-
     Lemma norm_factor_sgn B (q : list K) :
       exists sgn, (sgn = none_ \/ sgn = nopp none_) /\ norm_factor ops B q = ndiv sgn (ksqrt ops (bform B q)).
     Proof.
@@ -246,7 +242,7 @@ Section Algebra.
     Qed.
 
     Theorem postprocess_normalised sf B W (Qm : mat) W' Q' :
-      sqrt_contract -> postprocess ops sf B W Qm = Ok (W', Q') ->
+      sqrt_contract ops -> postprocess ops sf B W Qm = Ok (W', Q') ->
       forall j, (j < length W')%nat -> bform B (getcol j Q') = none_.
     Proof.
       intros Hsq HP j Hj. destruct (postprocess_spec ops sf B W Qm W' Q' HP) as (_ & _ & HlW & _ & _ & Hcol).
@@ -257,7 +253,7 @@ Section Algebra.
 
     (* genuine eigenvectors stay genuine: a non-zero raw column gives a non-zero output column *)
     Theorem postprocess_keeps_nonzero sf B W (Qm : mat) W' Q' :
-      sqrt_contract -> postprocess ops sf B W Qm = Ok (W', Q') ->
+      sqrt_contract ops -> postprocess ops sf B W Qm = Ok (W', Q') ->
       forall j, (j < length W')%nat ->
         is_zero_vec (getcol j Q') -> is_zero_vec (getcol (nth j (sf W Qm) O) Qm).
     Proof.
@@ -431,39 +427,31 @@ Section Machine.
   Variable auto_solver : @QMat.mat K -> bool -> nat.
   Local Notation mat := (@QMat.mat K).
 
-  Definition pencil_sparse (p : @pencil K) : bool :=
-    pAsp p && match pB p with None => true | Some _ => pBsp p end.
-  Definition herm_flag (st : @estate K) (p : @pencil K) : bool :=
-    match sHerm st with
-    | Some h => h
-    | None => is_hermitian_mat ops (pAsp p) (pA p) &&
-              match pB p with None => true | Some b => is_hermitian_mat ops (pBsp p) b end
-    end.
-
   (* which library routine is called, on which matrices, and that the flag is cached *)
   Theorem dispatch st p st' c :
     response ops auto_solver st p = (st', Ok c) ->
-    cFun c = (if pencil_sparse p then (if herm_flag st p then EIGSH else EIGS)
-              else (if herm_flag st p then EIGH else EIG)) /\
-    cA c = pA p /\ sHerm st' = Some (herm_flag st p) /\
+    cFun c = (if pencil_sparse p then (if herm_flag ops st p then EIGSH else EIGS)
+              else (if herm_flag ops st p then EIGH else EIG)) /\
+    cA c = pA p /\ sHerm st' = Some (herm_flag ops st p) /\
     (pencil_sparse p = false -> cM c = pB p /\ cOPinv c = None).
   Proof.
-    unfold response. fold (herm_flag st p). fold (pencil_sparse p).
+    unfold response. fold (herm_flag ops st p). fold (pencil_sparse p).
     destruct (pencil_sparse p) eqn:Es.
     - unfold sparse_eigs.
       destruct (truthy_sigma_zero ops match sSigma st with Some s => s | None => nzero end);
-        destruct (sAinv st) as [sv|]; destruct (herm_flag st p); cbn;
+        destruct (sAinv st) as [sv|]; destruct (herm_flag ops st p); cbn;
         try (destruct (negb (Nat.eqb (sMode st) 0)); cbn);
         intros E; inversion E; subst; cbn; repeat split; try discriminate.
-    - intros E; inversion E; subst; cbn. destruct (herm_flag st p); repeat split; auto.
+    - intros E; inversion E; subst; cbn. destruct (herm_flag ops st p); repeat split; auto.
   Qed.
 
   Lemma step_keeps_flag st o h : sHerm st = Some h -> sHerm (fst (step ops auto_solver st o)) = Some h.
   Proof.
     intros Hh. destruct o as [p|s]; cbn [step]; [|cbn; exact Hh].
     destruct (response ops auto_solver st p) as [st' c] eqn:E. cbn [fst].
-    unfold response in E. rewrite Hh in E.
-    destruct (pAsp p && match pB p with Some _ => pBsp p | None => true end).
+    unfold response in E.
+    assert (Hf : herm_flag ops st p = h) by (unfold herm_flag; rewrite Hh; reflexivity). rewrite Hf in E.
+    destruct (pencil_sparse p).
     - unfold sparse_eigs in E.
       destruct (truthy_sigma_zero ops match sSigma st with Some s => s | None => nzero end);
         destruct (sAinv st) as [sv|]; destruct h; cbn in E;
@@ -485,19 +473,8 @@ Section Machine.
   Lemma prepare_inv h nm sg md : inv (prepare h nm sg md).
   Proof. left. reflexivity. Qed.
 
-  (* what a call made in state st on pencil p must look like *)
-  Definition call_current (st : @estate K) (p : @pencil K) (c : @libcall K) : Prop :=
-    if pencil_sparse p then
-      exists kind,
-        cOPinv c = Some (kind, Some (shifted_of ops (sSigma st) p)) /\
-        cK c = Some (match sNmodes st with None => 6%Z | Some k => k end) /\
-        cSigma c = Some (match sSigma st with None => nzero | Some s => s end) /\
-        cM c = (if truthy_sigma_zero ops (match sSigma st with None => nzero | Some s => s end) then pB p
-                else Some (match pB p with None => eye (length (pA p)) | Some b => b end))
-    else cOPinv c = None /\ cM c = pB p.
-
   Lemma response_current st p st' c :
-    inv st -> response ops auto_solver st p = (st', Ok c) -> call_current st p c /\ inv st'.
+    inv st -> response ops auto_solver st p = (st', Ok c) -> call_current ops st p c /\ inv st'.
   Proof.
     intros Hinv. unfold response, call_current. fold (pencil_sparse p).
     destruct (pencil_sparse p) eqn:Es.
@@ -506,15 +483,15 @@ Section Machine.
       destruct (truthy_sigma_zero ops sg) eqn:Ez.
       + destruct (sAinv st) as [[kd mm]|] eqn:Ea.
         * destruct Hinv as [Hn|Hd]; [rewrite Ea in Hn; discriminate|]. rewrite Hd. cbn.
-          destruct (match sHerm st with Some h => h | None => _ end); cbn;
+          destruct (herm_flag ops st p); cbn;
             try (destruct (negb (Nat.eqb (sMode st) 0)); cbn);
             intros E; inversion E; subst; cbn; (split; [eexists; repeat split; reflexivity | right; reflexivity]).
         * cbn.
-          destruct (match sHerm st with Some h => h | None => _ end); cbn;
+          destruct (herm_flag ops st p); cbn;
             try (destruct (negb (Nat.eqb (sMode st) 0)); cbn);
             intros E; inversion E; subst; cbn; (split; [eexists; repeat split; reflexivity | right; reflexivity]).
       + destruct (sAinv st) as [[kd mm]|] eqn:Ea; cbn;
-          destruct (match sHerm st with Some h => h | None => _ end); cbn;
+          destruct (herm_flag ops st p); cbn;
             try (destruct (negb (Nat.eqb (sMode st) 0)); cbn);
             intros E; inversion E; subst; cbn; (split; [eexists; repeat split; reflexivity | right; reflexivity]).
     - intros E; inversion E; subst; cbn. split; [split; reflexivity|]. exact Hinv.
@@ -526,37 +503,23 @@ Section Machine.
     - eapply response_current; eauto.
     - (* NotImplementedError: the state was updated before the raise *)
       unfold response in E.
-      destruct (pAsp p && match pB p with Some _ => pBsp p | None => true end); [|inversion E].
+      destruct (pencil_sparse p); [|inversion E].
       unfold sparse_eigs in E.
       set (sg := match sSigma st with Some s => s | None => nzero end) in *.
       destruct (truthy_sigma_zero ops sg) eqn:Ez.
       + destruct (sAinv st) as [[kd mm]|] eqn:Ea.
         * destruct Hinv as [Hn|Hd]; [rewrite Ea in Hn; discriminate|]. rewrite Hd in E. cbn in E.
-          destruct (match sHerm st with Some h => h | None => _ end); cbn in E; [inversion E|].
+          destruct (herm_flag ops st p); cbn in E; [inversion E|].
           destruct (negb (Nat.eqb (sMode st) 0)); cbn in E; inversion E; subst; right; reflexivity.
         * cbn in E.
-          destruct (match sHerm st with Some h => h | None => _ end); cbn in E; [inversion E|].
+          destruct (herm_flag ops st p); cbn in E; [inversion E|].
           destruct (negb (Nat.eqb (sMode st) 0)); cbn in E; inversion E; subst; right; reflexivity.
       + destruct (sAinv st) as [[kd mm]|] eqn:Ea; cbn in E;
-          (destruct (match sHerm st with Some h => h | None => _ end); cbn in E; [inversion E|]);
+          (destruct (herm_flag ops st p); cbn in E; [inversion E|]);
           destruct (negb (Nat.eqb (sMode st) 0)); cbn in E; inversion E; subst; right; reflexivity.
   Qed.
 
-  (* every call of a history is "current" *)
-  Fixpoint history_current (st : @estate K) (os : list (@op K)) : Prop :=
-    match os with
-    | [] => True
-    | o :: t =>
-        match o with
-        | OpCall p => match snd (response ops auto_solver st p) with
-                      | Ok c => call_current st p c
-                      | Err _ => True
-                      end
-        | OpSetSigma _ => True
-        end /\ history_current (fst (step ops auto_solver st o)) t
-    end.
-
-  Lemma history_current_inv st os : inv st -> history_current st os.
+  Lemma history_current_inv st os : inv st -> history_current ops auto_solver st os.
   Proof.
     revert st. induction os as [|o t IH]; intros st Hinv; cbn [history_current]; auto.
     split.
@@ -570,7 +533,7 @@ Section Machine.
 
   (* by induction over ANY sequence of calls with changing A, B and sigma: the shift-invert operator handed
      to ARPACK at call k is the factorisation of the k-th A - sigma B; k, sigma, M are the current ones *)
-  Theorem factorisation_current h nm sg md os : history_current (prepare h nm sg md) os.
+  Theorem factorisation_current h nm sg md os : history_current ops auto_solver (prepare h nm sg md) os.
   Proof. apply history_current_inv. apply prepare_inv. Qed.
 End Machine.
 
@@ -578,11 +541,6 @@ End Machine.
 (* 7. non-vacuity: concrete instances                                                                *)
 Section Examples.
   Local Open Scope R_scope.
-  (* A = diag(2, 1), raw library output in descending order with a negative vector *)
-  Definition exA : @QMat.mat R := [[2; 0]; [0; 1]].
-  Definition exW : list R := [2; 1].
-  Definition exQ : @QMat.mat R := [[-1; 0]; [0; 2]].
-
   Lemma ex_contract : contract exA None exW exQ.
   Proof.
     split.
@@ -606,16 +564,6 @@ Section Examples.
   Qed.
 End Examples.
 
-(* a three-call history evaluated on the rational instance: default sigma, then m.sigma = 2, changing A *)
-Definition exP1 : @pencil Q := Build_pencil [[2; 1]; [1; 3]]%Q true None false.
-Definition exP2 : @pencil Q := Build_pencil [[5; 1]; [1; 4]]%Q true None false.
-Definition ex_history : list (@op Q) := [OpCall exP1; OpCall exP2; OpSetSigma (Some 2%Q); OpCall exP1].
-Definition ex_opinvs : list (option (@QMat.mat Q)) :=
-  map (fun c => match c with
-                | Some (Ok c) => match @cOPinv Q c with Some (_, m) => m | None => None end
-                | _ => None
-                end)
-      (@run Q NumQd opsQ (fun _ _ => O) (prepare None None None 0) ex_history).
 Lemma ex_opinvs_value :
   ex_opinvs = [Some [[2; 1]; [1; 3]]; Some [[5; 1]; [1; 4]]; None; Some [[0; 1]; [1; 1]]]%Q.
 Proof. vm_compute. reflexivity. Qed.
